@@ -10,15 +10,13 @@ Go data                                              | here
                                                      | *same* Go map, and `m.value[hash] = …` updates it in place
 a bucket `[][2]Value` sorted by `Compare` of the keys | `Bucket := List (Val × Val)`
 `*mutableMap` (field `value` is re-assigned by Clear) | an index into `Heap.objs`, which holds the address of its current table
-`*immutableMap`                                      | `Handle.imm t` – the address of its table (its `value` field never changes)
+`*immutableMap`                                      | `Handle.imm t` – the address of its Go map (its `value` field never changes)
 
-Simplification (stated, deliberate): bucket arrays are stored **by value** inside the table entries instead of in a
-third heap of bucket arrays. In the fixed code a bucket array is never written after it has been installed
-(`Set` and `Delete` always build a fresh `modify` array), so sharing of bucket arrays between tables is not
-observable; the table level, where in-place writes do happen and where `immutableMap.mutable()` must copy, is
-modelled with addresses, so "forgot to copy the table" / "wrote through an alias" bugs can exist in this model.
-(The pinned bug – a write into a shared bucket array – is by construction not expressible; it is covered by
-the harness oracle and the corpus witness.)
+Three kinds of heap objects are addressed (section "Heap" below): bucket arrays, Go maps (hash ↦ *reference* to a
+bucket array) and mutableMap objects. `immutableMap.mutable()` copies the Go map and shares the bucket arrays, so
+both "forgot to copy the Go map / wrote through an alias" and "wrote into a shared bucket array" – the pinned
+`Set` bug, `aSetPinned` – are expressible. The by-value `Table` is the *content* of a Go map and the level at
+which the dictionary laws are stated.
 
 Each function follows the Go method of the same name; `search` is the binary-search loop that `Has`, `Get`,
 `Set` and `Delete` each spell out. Where Go would index out of range the model answers `SR.panic`
@@ -62,17 +60,17 @@ def search (b : Bucket) (key : Val) : SR := bsearch b key (b.length + 1) 0 b.len
 /-! ## One Go map `hash ↦ bucket` -/
 
 /-- `m.value[hash] = bucket` -/
-def put : Table → UInt64 → Bucket → Table
+def put {β : Type} : List (UInt64 × β) → UInt64 → β → List (UInt64 × β)
   | [], h, b => [(h, b)]
   | (h', b') :: t, h, b => if h' = h then (h, b) :: t else (h', b') :: put t h b
 
 /-- `delete(m.value, hash)` -/
-def erase : Table → UInt64 → Table
+def erase {β : Type} : List (UInt64 × β) → UInt64 → List (UInt64 × β)
   | [], _ => []
   | (h', b') :: t, h => if h' = h then t else (h', b') :: erase t h
 
 /-- `bucket, ok := m.value[hash]` -/
-def bucketOf : Table → UInt64 → Option Bucket
+def bucketOf {β : Type} : List (UInt64 × β) → UInt64 → Option β
   | [], _ => none
   | (h', b') :: t, h => if h' = h then some b' else bucketOf t h
 
@@ -138,39 +136,110 @@ def tRange (t : Table) : List (Val × Val) := tPairs (sortByHash t)
 /-- the map as a `Val` (pairs in `Range` order) – ties this model to `Model/Value.lean` -/
 def tVal (t : Table) : Val := .map (PList.ofList (tRange t))
 
-/-! ## Heap, handles, operations -/
+/-! ## Heap: bucket arrays, Go maps and mutableMap objects are all addressed
+
+`Table` above is the *content* of a Go map (buckets by value); the functions `tLook/tSet/tDelete/…` on it are the
+abstract layer the dictionary theorems are about. The heap stores what Go stores: a Go map holds, per hash, a
+**reference** to a bucket array (`ATable`), bucket arrays live in `Heap.buckets`, and several Go maps may reference
+the same bucket array – `immutableMap.mutable()` copies the map, not the arrays. `resolve` reads a Go map's content
+through the bucket heap. `aSet` / `aDelete` are `mutableMap.Set` / `Delete` at this level: they build the new bucket
+from the referenced one and **allocate a fresh array** for it (the fixed code); `aSetPinned` is the pinned `Set`,
+which on overwrite wrote the new value into the referenced (shared) array and installed a copy of the old content. -/
+
+/-- a Go map `hash ↦ reference to a bucket array` -/
+abbrev ATable := List (UInt64 × Nat)
+
+/-- the content of a Go map, read through the bucket heap (`none`: a dangling bucket reference) -/
+def resolve (bs : List Bucket) : ATable → Option Table
+  | [] => some []
+  | (h, a) :: t =>
+    match bs[a]?, resolve bs t with
+    | some b, some t' => some ((h, b) :: t')
+    | _, _ => none
+
+/-- `bucket := m.value[hash]` read through the heap: the nil slice when the hash is absent -/
+def curBucket (bs : List Bucket) (t : ATable) (h : UInt64) : Option Bucket :=
+  match bucketOf t h with
+  | none => some []
+  | some a => bs[a]?
+
+/-- `mutableMap.Set` (fixed): the rebuilt bucket goes into a freshly allocated array, the Go map is updated in place. -/
+def aSet (bs : List Bucket) (t : ATable) (key val : Val) : Option (List Bucket × ATable) :=
+  match curBucket bs t (hash key) with
+  | none => none
+  | some b =>
+    match search b key with
+    | .found i p => some (bs ++ [b.take i ++ (p.1, val) :: b.drop (i + 1)], put t (hash key) bs.length)
+    | .absent lo => some (bs ++ [b.take lo ++ (key, val) :: b.drop lo], put t (hash key) bs.length)
+    | .panic => none
+
+/-- The **pinned** `mutableMap.Set` (before 8820110 / d6edf10): on overwrite `modify := copy(bucket); bucket[mid][1] = val;
+m.value[hash] = modify` – the referenced array is written in place and the map gets a copy of the *old* content. -/
+def aSetPinned (bs : List Bucket) (t : ATable) (key val : Val) : Option (List Bucket × ATable) :=
+  match curBucket bs t (hash key) with
+  | none => none
+  | some b =>
+    match search b key with
+    | .found i p =>
+      match bucketOf t (hash key) with
+      | some a => some (bs.set a (b.take i ++ (p.1, val) :: b.drop (i + 1)) ++ [b], put t (hash key) bs.length)
+      | none => none
+    | .absent lo => some (bs ++ [b.take lo ++ (key, val) :: b.drop lo], put t (hash key) bs.length)
+    | .panic => none
+
+/-- `mutableMap.Delete`: the shortened bucket goes into a fresh array, or the hash is removed from the Go map. -/
+def aDelete (bs : List Bucket) (t : ATable) (key : Val) : Option (List Bucket × ATable) :=
+  match bucketOf t (hash key) with
+  | none => some (bs, t)
+  | some a =>
+    match bs[a]? with
+    | none => none
+    | some b =>
+      match search b key with
+      | .found i _ =>
+        let b' := b.take i ++ b.drop (i + 1)
+        if b'.length > 0 then some (bs ++ [b'], put t (hash key) bs.length) else some (bs, erase t (hash key))
+      | .absent _ => some (bs, t)
+      | .panic => none
 
 structure Heap where
-  tables : List Table := []
-  objs : List Nat := []       -- mutableMap objects: address of the table in their `value` field
+  buckets : List Bucket := []   -- bucket arrays
+  tables : List ATable := []    -- Go maps
+  objs : List Nat := []         -- mutableMap objects: address of the Go map in their `value` field
 
 inductive Handle
   | imm (t : Nat)
   | mut (o : Nat)
   deriving DecidableEq, Repr
 
-def Heap.allocTable (hp : Heap) (t : Table) : Heap × Nat :=
+def Heap.allocTable (hp : Heap) (t : ATable) : Heap × Nat :=
   ({ hp with tables := hp.tables ++ [t] }, hp.tables.length)
 
 def Heap.allocObj (hp : Heap) (t : Nat) : Heap × Nat :=
   ({ hp with objs := hp.objs ++ [t] }, hp.objs.length)
 
-/-- address of the table a handle reads -/
+/-- address of the Go map a handle reads -/
 def Heap.addrOf (hp : Heap) : Handle → Option Nat
   | .imm t => if t < hp.tables.length then some t else none
   | .mut o => hp.objs[o]?
 
-def Heap.tableOf (hp : Heap) (h : Handle) : Option Table :=
+/-- the Go map a handle reads -/
+def Heap.tableOf (hp : Heap) (h : Handle) : Option ATable :=
   (hp.addrOf h).bind fun a => hp.tables[a]?
 
-/-- in-place write of the Go map at address `a` -/
-def Heap.write (hp : Heap) (a : Nat) (t : Table) : Heap := { hp with tables := hp.tables.set a t }
+/-- the content a handle reads -/
+def Heap.content (hp : Heap) (h : Handle) : Option Table :=
+  (hp.tableOf h).bind (resolve hp.buckets)
+
+/-- in-place write of the Go map at address `a`, with the bucket heap left by the operation -/
+def Heap.write (hp : Heap) (a : Nat) (r : List Bucket × ATable) : Heap :=
+  { hp with buckets := r.1, tables := hp.tables.set a r.2 }
 
 /-- outcome of a handle-returning method: the heap afterwards, the returned map, whether it *is* the receiver -/
 inductive Res
   | ok (hp : Heap) (h : Handle) (same : Bool)
   | panic
-  | bad           -- dangling handle (never produced by the driver)
+  | bad           -- dangling handle or bucket reference (never produced by the driver)
 
 /-- `NewMapWithSize(n)`: a fresh mutable map -/
 def Heap.newMut (hp : Heap) : Heap × Handle :=
@@ -184,48 +253,61 @@ def Heap.newImm (hp : Heap) : Heap × Handle :=
   let (hp2, _) := hp1.allocObj t
   (hp2, .imm t)
 
-/-- `immutableMap.mutable()`: a new Go map with the same entries (buckets shared), wrapped in a new object -/
-def Heap.copyTable (hp : Heap) (t : Table) : Heap × Nat := hp.allocTable t
+/-- `immutableMap.mutable()`: a new Go map with the same entries – the bucket arrays are shared, not copied -/
+def Heap.copyTable (hp : Heap) (t : ATable) : Heap × Nat := hp.allocTable t
 
-def Heap.set (hp : Heap) (h : Handle) (key val : Val) : Res :=
+/-- `Set`, parameterised by the `mutableMap.Set` rule (`aSet` = fixed code, `aSetPinned` = pinned code) -/
+def Heap.setWith (rule : List Bucket → ATable → Val → Val → Option (List Bucket × ATable))
+    (hp : Heap) (h : Handle) (key val : Val) : Res :=
   match h, hp.tableOf h, hp.addrOf h with
   | .imm _, some t, some _ =>
     -- `if m.Has(key) && Equal(m.Get(key), val) { return m }`
-    match tLook t key with
-    | .panic => .panic
-    | .hit v =>
-      if equal v val then .ok hp h true
-      else
-        let (hp1, a') := hp.copyTable t                     -- m.mutable()
-        match tSet t key val with
-        | some t' => .ok (hp1.write a' t') (.imm a') false  -- .Set(key, val).Immutable()
+    match resolve hp.buckets t with
+    | none => .bad
+    | some c =>
+      match tLook c key with
+      | .panic => .panic
+      | .hit v =>
+        if equal v val then .ok hp h true
+        else
+          let (hp1, a') := hp.copyTable t                    -- m.mutable()
+          match rule hp1.buckets t key val with
+          | some r => .ok (hp1.write a' r) (.imm a') false   -- .Set(key, val).Immutable()
+          | none => .panic
+      | .miss =>
+        let (hp1, a') := hp.copyTable t
+        match rule hp1.buckets t key val with
+        | some r => .ok (hp1.write a' r) (.imm a') false
         | none => .panic
-    | .miss =>
-      let (hp1, a') := hp.copyTable t
-      match tSet t key val with
-      | some t' => .ok (hp1.write a' t') (.imm a') false
-      | none => .panic
   | .mut _, some t, some a =>
-    match tSet t key val with
-    | some t' => .ok (hp.write a t') h true
+    match rule hp.buckets t key val with
+    | some r => .ok (hp.write a r) h true
     | none => .panic
   | _, _, _ => .bad
+
+def Heap.set : Heap → Handle → Val → Val → Res := Heap.setWith aSet
+
+/-- the pinned tree's `Set` -/
+def Heap.setPinned : Heap → Handle → Val → Val → Res := Heap.setWith aSetPinned
 
 def Heap.delete (hp : Heap) (h : Handle) (key : Val) : Res :=
   match h, hp.tableOf h, hp.addrOf h with
   | .imm _, some t, some _ =>
     -- `if !m.Has(key) { return m }`
-    match tLook t key with
-    | .panic => .panic
-    | .miss => .ok hp h true
-    | .hit _ =>
-      let (hp1, a') := hp.copyTable t
-      match tDelete t key with
-      | some t' => .ok (hp1.write a' t') (.imm a') false
-      | none => .panic
+    match resolve hp.buckets t with
+    | none => .bad
+    | some c =>
+      match tLook c key with
+      | .panic => .panic
+      | .miss => .ok hp h true
+      | .hit _ =>
+        let (hp1, a') := hp.copyTable t
+        match aDelete hp1.buckets t key with
+        | some r => .ok (hp1.write a' r) (.imm a') false
+        | none => .panic
   | .mut _, some t, some a =>
-    match tDelete t key with
-    | some t' => .ok (hp.write a t') h true
+    match aDelete hp.buckets t key with
+    | some r => .ok (hp.write a r) h true
     | none => .panic
   | _, _, _ => .bad
 
@@ -253,6 +335,15 @@ def Heap.immutable (hp : Heap) (h : Handle) : Res :=
   | .imm _, some _ => .ok hp h true
   | .mut _, some a => .ok hp (.imm a) false   -- `&immutableMap{value: m.value}`: the *same* Go map
   | _, _ => .bad
+
+/-- does handle `h` read value `v` (up to `Equal`) under key `k`? (a decidable observation for concrete witnesses) -/
+def Heap.reads (hp : Heap) (h : Handle) (k v : Val) : Bool :=
+  match hp.content h with
+  | some c =>
+    match tLook c k with
+    | .hit x => equal x v
+    | _ => false
+  | none => false
 
 end Uniflow.MapHeap
 
@@ -283,5 +374,46 @@ def runDerived (hp : Heap) (D : List Handle) : List (Nat × Op) → Heap × List
       match hp.apply h op with
       | .ok hp' h' _ => runDerived hp' (D ++ [h']) rest
       | _ => runDerived hp D rest
+
+end Uniflow.MapHeap
+
+/-! ## Content-level reading of the operations (used by the refinement theorems) -/
+
+namespace Uniflow.MapHeap
+open Uniflow.Value
+
+def Handle.isMut : Handle → Bool
+  | .mut _ => true
+  | .imm _ => false
+
+/-- what the map returned by an operation contains, as a function of what the receiver contains (`isMut`: the receiver is a
+mutable map). This is the by-value reading of the Go methods: `immutableMap.Set` returns the receiver when the key is
+present with an Equal value, otherwise both kinds of map do `mutableMap.Set`; `Delete` of a missing key changes nothing. -/
+def cstep (isMut : Bool) (T : Table) : Op → Option Table
+  | .set k v =>
+    if isMut then tSet T k v
+    else
+      match tLook T k with
+      | .hit v0 => if equal v0 v then some T else tSet T k v
+      | .miss => tSet T k v
+      | .panic => none
+  | .delete k => tDelete T k
+  | .clear => some []
+  | .mutable => some T
+  | .immutable => some T
+
+/-- kind of the returned map -/
+def kindAfter (isMut : Bool) : Op → Bool
+  | .mutable => true
+  | .immutable => false
+  | _ => isMut
+
+/-- apply a history to one map: every operation acts on the map returned by the previous one -/
+def runChain (hp : Heap) (h : Handle) : List Op → Option (Heap × Handle)
+  | [] => some (hp, h)
+  | op :: rest =>
+    match hp.apply h op with
+    | .ok hp' h' _ => runChain hp' h' rest
+    | _ => none
 
 end Uniflow.MapHeap
